@@ -10,6 +10,7 @@ import TrVerif.Props.C04
 import TrVerif.Props.C03
 import TrVerif.Props.Attained
 import TrVerif.Props.NoExc
+import TrVerif.Props.C10e
 namespace Tr
 
 def nvDs : Dataset :=
